@@ -134,15 +134,19 @@ func genHeaders(rng *rand.Rand, marker string) [][2]string {
 		}
 	}
 	// pre-existing forwarding headers
-	switch rng.Intn(4) {
+	switch rng.Intn(5) {
 	case 1:
 		h = append(h, [2]string{"Via", "1.0 fred-" + marker})
 	case 2:
 		h = append(h, [2]string{"Via", "1.0 fred-" + marker}, [2]string{randCase(rng, "Via"), "1.1 barney-" + marker})
 	case 3:
 		h = append(h, [2]string{"Via", "1.0 fred-" + marker + ", 1.1 wilma-" + marker})
+	case 4: // an empty first line followed by a real one
+		h = append(h, [2]string{"Via", ""}, [2]string{"Via", "1.1 edge-" + marker})
 	}
-	switch rng.Intn(4) {
+	switch rng.Intn(5) {
+	case 4:
+		h = append(h, [2]string{"X-Forwarded-For", ""}, [2]string{"X-Forwarded-For", "198.51.100.77"})
 	case 1:
 		h = append(h, [2]string{"X-Forwarded-For", "203.0.113.7"})
 	case 2:
